@@ -591,6 +591,10 @@ impl Model {
                     let v = self.get_cached(c, *ty, id, rec);
                     out.push(V::Opt(v.map(Box::new)));
                 }
+                Op::Peek { ty, id } => {
+                    let v = self.get_cached(c, *ty, id, rec);
+                    out.push(V::Bool(v.is_some()));
+                }
                 Op::Owned { ty, id } => match self.load_owned(c, *ty, id, rec) {
                     Ok(v) => out.push(V::Res(Ok(Box::new(v)))),
                     Err(Stop::Err(e)) => out.push(V::Res(Err(e))),
